@@ -20,8 +20,24 @@ Section Unfold.
   Fixpoint fmt_items (k : gkind) (pos : position) (es : list expr) (i : nat) : list tok :=
     match es with
     | [] => []
-    | [a] => fmt F a (0%N, pos, false)
-    | a :: t => fmt F a (0%N, pos, false) ++ sep_of k i :: fmt_items k pos t (S i)
+    | [a] => fmt F a (item_ctx F k, pos, false)
+    | a :: t => fmt F a (item_ctx F k, pos, false) ++ sep_of k i :: fmt_items k pos t (S i)
+    end.
+
+  (* `start.kind` *)
+  Definition kind_of (e : expr) : expr := match e with EAlias _ k => k | _ => e end.
+
+  (* the start of a range: parentheses keep a parameter apart from the following `..` *)
+  Definition range_start (l : expr) (ctx : N) (unb : bool) : list tok :=
+    let ts := fmt F l (N.max ctx (bs_rng F), PUnspec, unb) in
+    if ends_close ts then ts else
+    match kind_of l with
+    | EAtom (AParam _) => TOpen GPipe :: ts ++ [TClose GPipe]
+    | EUn u x =>
+        if is_param (kind_of x)
+        then TS (sym_un F u) true :: TOpen GPipe :: fmt F x (N.max ctx (bs_un F), PUnspec, unb) ++ [TClose GPipe]
+        else ts
+    | _ => ts
     end.
 
   (* what `self.kind.write(opt)` emits *)
@@ -33,12 +49,12 @@ Section Unfold.
         let c := N.max ctx (bs_bin F o) in
         fmt F l (c, PLeft, unb) ++ TS (sym_bin F o) false :: fmt F r (c, PRight, unb)
     | EUn u x => TS (sym_un F u) true :: fmt F x (N.max ctx (bs_un F), PUnspec, unb)
-    | ERng l r =>
-        let c := N.max ctx (bs_rng F) in fmt F l (c, PUnspec, unb) ++ TRg true true :: fmt F r (c, PUnspec, unb)
-    | ERngL l => fmt F l (N.max ctx (bs_rng F), PUnspec, unb) ++ [TRg true false]
+    | ERng l r => range_start l ctx unb ++ TRg true true :: fmt F r (N.max ctx (bs_rng F), PUnspec, unb)
+    | ERngL l => range_start l ctx unb ++ [TRg true false]
     | ERngR r => TRg false true :: fmt F r (N.max ctx (bs_rng F), PUnspec, unb)
     | ERng0 => [TRg false false]
-    | ECall f args => let c := N.max ctx (bs_call F) in fmt F f (c, PUnspec, unb) ++ fmt_args c PUnspec args
+    | ECall f args =>
+        fmt F f (N.max (no_alias F f ctx) (bs_call F), PUnspec, unb) ++ fmt_args (N.max ctx (bs_call F)) PUnspec args
     | EGroup k es => TOpen k :: fmt_items k PUnspec es O ++ [TClose k]
     | EAlias _ _ | ENamed _ _ => []
     end.
@@ -49,8 +65,11 @@ Section Unfold.
   Lemma fmt_eq e st :
     fmt F e st =
     match e with
-    | EAlias n x => let '(ctx, pos, unb) := st in TAlias n :: fmt F x (ctx, pos, false)
-    | ENamed n x => TNamed n :: fmt F x st
+    | EAlias n x =>
+        let '(ctx, pos, unb) := st in
+        if (alias_ctx F <? ctx)%N then TOpen GPipe :: TAlias n :: fmt F x (0%N, pos, false) ++ [TClose GPipe]
+        else TAlias n :: fmt F x (ctx, pos, false)
+    | ENamed n x => let '(ctx, pos, unb) := st in TNamed n :: fmt F x (no_alias F x ctx, pos, unb)
     | _ => wrap (needs F st e) (kind_fmt e (inner_state st (needs F st e)))
     end.
   Proof.
@@ -62,8 +81,8 @@ Section Unfold.
         (fix go (l : list expr) (i : nat) {struct l} : list tok :=
            match l with
            | [] => []
-           | [a] => fmt F a (0%N, PUnspec, false)
-           | a :: (_ :: _) as t => fmt F a (0%N, PUnspec, false) ++ sep_of k i :: go t (S i)
+           | [a] => fmt F a (item_ctx F k, PUnspec, false)
+           | a :: (_ :: _) as t => fmt F a (item_ctx F k, PUnspec, false) ++ sep_of k i :: go t (S i)
            end) l i = fmt_items k PUnspec l i).
       { induction l as [|a t IH]; intros i; cbn [fmt_items]; [reflexivity|].
         destruct t; [reflexivity|]. rewrite IH. reflexivity. }
@@ -98,6 +117,13 @@ Section RoundTrip.
     H_bin_rng : forall o, o < nb -> (bs o <= bs_rng F)%N;
     H_pos_bin : forall o, o < nb -> (0 < bs o)%N;
     H_pos_other : (0 < bs_un F)%N /\ (0 < bs_rng F)%N /\ (0 < bs_call F)%N /\ (0 < bs_other F)%N;
+    (* an aliased expression is parenthesised as operand, range bound, callee and named-argument value ... *)
+    H_alias_bin : forall o, o < nb -> (alias_ctx F < bs o)%N;
+    H_alias_un : (alias_ctx F < bs_un F)%N;
+    H_alias_rng : (alias_ctx F < bs_rng F)%N;
+    H_alias_no : (alias_ctx F < noalias_ctx F)%N;
+    (* ... and stays bare as a positional argument *)
+    H_alias_call : (bs_call F <= alias_ctx F)%N;
   }.
   Hypothesis C : compat_facts.
 
@@ -125,11 +151,80 @@ Section RoundTrip.
     (fix go (l : list expr) : bool := match l with [] => false | a :: t => p a || go t end) l = existsb p l.
   Proof. induction l as [|a t IH]; [reflexivity|]. cbn [existsb]. rewrite <- IH. reflexivity. Qed.
 
+  (* ---------------- aliased operands *)
+  (* an alias is written in parentheses (`wrapped`) wherever the state is above alias_ctx (`okst`) *)
+  Definition wrapped (st : state) (e : expr) : bool := is_alias e || needs F st e.
+  Definition okst (e : expr) (st : state) : Prop := is_alias e = true -> (alias_ctx F < fst (fst st))%N.
+
+  Lemma okst_plain e st : plain e = true -> okst e st.
+  Proof. intros Hp Ha. unfold plain in Hp. rewrite Ha in Hp. discriminate Hp. Qed.
+  Lemma okst_lt e ctx pos unb : (alias_ctx F < ctx)%N -> okst e (ctx, pos, unb).
+  Proof. intros H _. exact H. Qed.
+  Lemma wrapped_plain e st : plain e = true -> wrapped st e = needs F st e.
+  Proof. intro Hp. unfold wrapped. unfold plain in Hp. apply andb_true_iff in Hp as [Hp _]. apply negb_true_iff in Hp. rewrite Hp. reflexivity. Qed.
+  Lemma plain_operand e : plain e = true -> operand e = true.
+  Proof. unfold plain, operand. intro H. apply andb_true_iff in H as [_ H]. exact H. Qed.
+  Lemma plain_not_alias e : plain e = true -> is_alias e = false.
+  Proof. unfold plain. intro H. apply andb_true_iff in H as [H _]. apply negb_true_iff in H. exact H. Qed.
+  Lemma operand_cases e : operand e = true -> plain e = true \/ exists n x, e = EAlias n x.
+  Proof. destruct e; cbn; intro H; try discriminate; auto. right. eexists _, _. reflexivity. Qed.
+
+  Lemma ends_close_snoc ts : ends_close (ts ++ [TClose GPipe]) = true.
+  Proof. unfold ends_close. rewrite last_last. reflexivity. Qed.
+  Lemma ends_close_cons_snoc t ts : ends_close (t :: ts ++ [TClose GPipe]) = true.
+  Proof. change (t :: ts ++ [TClose GPipe]) with ((t :: ts) ++ [TClose GPipe]). apply ends_close_snoc. Qed.
+
+  Lemma fmt_alias_hi n x ctx pos unb : (alias_ctx F < ctx)%N ->
+    fmt F (EAlias n x) (ctx, pos, unb) = TOpen GPipe :: TAlias n :: fmt F x (0%N, pos, false) ++ [TClose GPipe].
+  Proof. intro H. rewrite fmt_eq. apply N.ltb_lt in H. rewrite H. reflexivity. Qed.
+  Lemma fmt_alias_lo n x ctx pos unb : (ctx <= alias_ctx F)%N ->
+    fmt F (EAlias n x) (ctx, pos, unb) = TAlias n :: fmt F x (ctx, pos, false).
+  Proof. intro H. rewrite fmt_eq. apply N.ltb_ge in H. rewrite H. reflexivity. Qed.
+
+  (* the callee / a named-argument value is written at a context that parenthesises an alias and every call *)
+  Lemma no_alias_ok x ctx pos unb : okst x (N.max (no_alias F x ctx) (bs_call F), pos, unb).
+  Proof.
+    intros Ha. cbn [fst]. unfold no_alias. replace (is_alias_e x) with (is_alias x) by (destruct x; reflexivity). rewrite Ha.
+    pose proof (H_alias_no C). lia.
+  Qed.
+  Lemma no_alias_plain x ctx : is_alias x = false -> no_alias F x ctx = ctx.
+  Proof. intro H. unfold no_alias. replace (is_alias_e x) with (is_alias x) by (destruct x; reflexivity). rewrite H. reflexivity. Qed.
+
+  (* which of its three shapes the start of a range takes *)
+  Lemma range_start_cases l ctx unb :
+    let st := (N.max ctx (bs_rng F), PUnspec, unb) in
+    range_start F l ctx unb = fmt F l st \/
+    (exists s, l = EAtom (AParam s) /\ range_start F l ctx unb = TOpen GPipe :: fmt F l st ++ [TClose GPipe]) \/
+    (exists u p, l = EUn u (EAtom (AParam p)) /\ needs F st l = false /\
+       range_start F l ctx unb =
+         TS (sym_un F u) true :: TOpen GPipe :: fmt F (EAtom (AParam p)) (N.max ctx (bs_un F), PUnspec, unb) ++ [TClose GPipe]).
+  Proof.
+    intros st. unfold range_start. fold st.
+    destruct (ends_close (fmt F l st)) eqn:EC; [left; reflexivity|].
+    destruct l as [a|o l1 r1|u x|l1 r1|l1|r1| |f args|k es|n x|n x]; cbn [kind_of]; try (left; reflexivity).
+    - destruct a; try (left; reflexivity). right; left. eexists; split; reflexivity.
+    - destruct (is_param (kind_of x)) eqn:EP; [|left; reflexivity].
+      assert (EN : needs F st (EUn u x) = false).
+      { destruct (needs F st (EUn u x)) eqn:EN; [|reflexivity]. rewrite fmt_eq, EN in EC. cbn [wrap] in EC.
+        rewrite ends_close_cons_snoc in EC. discriminate EC. }
+      destruct x as [a|o2 l2 r2|u2 x2|l2 r2|l2|r2| |f2 args2|k2 es2|n2 x2|n2 x2]; cbn [kind_of is_param] in EP; try discriminate EP.
+      + destruct a; try discriminate EP. right; right. exists u, s. split; [reflexivity|]. split; [exact EN | reflexivity].
+      + exfalso. rewrite fmt_eq, EN in EC. unfold st in EC. cbn [wrap inner_state kind_fmt] in EC.
+        rewrite fmt_alias_hi in EC by (pose proof (H_alias_un C); lia).
+        change (TS (sym_un F u) true :: TOpen GPipe :: TAlias n2 :: fmt F x2 (0%N, PUnspec, false) ++ [TClose GPipe])
+          with (TS (sym_un F u) true :: (TOpen GPipe :: TAlias n2 :: fmt F x2 (0%N, PUnspec, false)) ++ [TClose GPipe]) in EC.
+        rewrite ends_close_cons_snoc in EC. discriminate EC.
+    - exfalso. unfold st in EC. rewrite fmt_alias_hi in EC by (pose proof (H_alias_rng C); lia).
+      change (TOpen GPipe :: TAlias n :: fmt F x (0%N, PUnspec, false) ++ [TClose GPipe])
+        with (TOpen GPipe :: (TAlias n :: fmt F x (0%N, PUnspec, false)) ++ [TClose GPipe]) in EC.
+      rewrite ends_close_cons_snoc in EC. discriminate EC.
+  Qed.
+
   (* ---------------- strengths *)
   Lemma needs_reset e pos : plain e = true -> ops_ok e = true -> needs F (0%N, pos, false) e = false.
   Proof.
     intros _ Ho. unfold needs. cbn [andb orb].
-    destruct C as [_ _ _ _ _ _ _ _ _ _ _ _ _ Hpb [Hu [Hr [Hc Hot]]]].
+    destruct C as [_ _ _ _ _ _ _ _ _ _ _ _ _ Hpb [Hu [Hr [Hc Hot]]] _ _ _ _ _].
     assert (0 < strength F e)%N as Hs.
     { destruct e; cbn [strength]; try assumption. cbn [ops_ok] in Ho. apply andb_true_iff in Ho as [Ho _].
       apply andb_true_iff in Ho as [Ho _]. apply Nat.ltb_lt in Ho. apply Hpb; exact Ho. }
@@ -164,15 +259,39 @@ Section RoundTrip.
   Lemma wrap_head w ts : w = true -> exists ts', wrap w ts = TOpen GPipe :: ts'.
   Proof. intros ->. cbn [wrap]. eexists; reflexivity. Qed.
 
-  Lemma fmt_head e : plain e = true -> wf e = true -> ops_ok e = true ->
-    forall st, exists t ts, fmt F e st = t :: ts /\ head_ok (snd st) t.
+  (* the first token of the start of a range, given the first token of the start expression itself *)
+  Lemma range_head l ctx unb (dummy : expr) :
+    (operand l = true -> wf l = true -> ops_ok l = true ->
+       forall st, okst l st -> exists t ts, fmt F l st = t :: ts /\ head_ok (snd st) t) ->
+    operand l = true -> wf l = true -> ops_ok l = true ->
+    forall X, exists t ts, range_start F l ctx unb ++ X = t :: ts /\ head_ok unb t.
+  Proof.
+    intros IHl Hp Hw Ho X.
+    destruct (range_start_cases l ctx unb) as [E|[[s [-> E]]|[u [p [-> [EN E]]]]]]; rewrite E.
+    - destruct (IHl Hp Hw Ho (N.max ctx (bs_rng F), PUnspec, unb) ltac:(apply okst_lt; pose proof (H_alias_rng C); lia)) as [t [ts [E2 Hh]]].
+      rewrite E2. cbn [app]. eexists _, _; split; [reflexivity | exact Hh].
+    - cbn [app]. eexists _, _; split; [reflexivity | exact I].
+    - cbn [app]. eexists _, _; split; [reflexivity|]. cbn [head_ok].
+      cbn [ops_ok] in Ho. apply andb_true_iff in Ho as [Hu _]. apply Nat.ltb_lt in Hu. split.
+      + rewrite (H_un_sym C u Hu). discriminate.
+      + intros ->. unfold needs in EN. cbn [can_bind_left andb] in EN.
+        apply orb_false_iff in EN as [EN _]. apply orb_false_iff in EN as [EN _].
+        apply (H_cbl C u Hu EN).
+  Qed.
+
+  Lemma fmt_head e : operand e = true -> wf e = true -> ops_ok e = true ->
+    forall st, okst e st -> exists t ts, fmt F e st = t :: ts /\ head_ok (snd st) t.
   Proof.
     induction e as [a|o l r IHl IHr|u x IHx|l r IHl IHr|l IHl|r IHr| |f args IHf IHargs|k es IHes|n x IHx|n x IHx] using expr_ind2;
-      intros Hp Hw Ho [[ctx pos] unb]; try discriminate Hp; rewrite fmt_eq;
+      intros Hp Hw Ho [[ctx pos] unb] Hok; try discriminate Hp.
+    10: { (* alias, in parentheses *)
+      rewrite fmt_alias_hi by (apply Hok; reflexivity). eexists _, _; split; [reflexivity | exact I]. }
+    all: rewrite fmt_eq;
       (destruct (needs F _ _) eqn:EN; [cbn [wrap]; eexists _, _; split; [reflexivity | exact I] | ]);
       cbn [wrap inner_state kind_fmt snd]; cbn [wf ops_ok] in Hw, Ho; bsplit.
     - eexists _, _; split; [reflexivity | exact I].
-    - destruct (IHl ltac:(assumption) ltac:(assumption) ltac:(assumption) (N.max ctx (bs o), PLeft, unb)) as [t [ts [E Hh]]].
+    - pose proof (H_alias_bin C o ltac:(apply Nat.ltb_lt; assumption)) as Hab.
+      destruct (IHl ltac:(assumption) ltac:(assumption) ltac:(assumption) (N.max ctx (bs o), PLeft, unb) ltac:(apply okst_lt; lia)) as [t [ts [E Hh]]].
       rewrite E. cbn [app]. eexists _, _; split; [reflexivity | exact Hh].
     - match goal with H : (u <? nu) = true |- _ => apply Nat.ltb_lt in H; rename H into Hu end.
       eexists _, _; split; [reflexivity|]. cbn [head_ok]. split.
@@ -180,13 +299,11 @@ Section RoundTrip.
       + intros ->. unfold needs in EN. cbn [can_bind_left andb] in EN.
         apply orb_false_iff in EN as [EN _]. apply orb_false_iff in EN as [EN _].
         apply (H_cbl C u Hu EN).
-    - destruct (IHl ltac:(assumption) ltac:(assumption) ltac:(assumption) (N.max ctx (bs_rng F), PUnspec, unb)) as [t [ts [E Hh]]].
-      rewrite E. cbn [app]. eexists _, _; split; [reflexivity | exact Hh].
-    - destruct (IHl ltac:(assumption) ltac:(assumption) ltac:(assumption) (N.max ctx (bs_rng F), PUnspec, unb)) as [t [ts [E Hh]]].
-      rewrite E. cbn [app]. eexists _, _; split; [reflexivity | exact Hh].
+    - apply (range_head l ctx unb r IHl); assumption.
+    - apply (range_head l ctx unb l IHl); assumption.
     - eexists _, _; split; [reflexivity | reflexivity].
     - eexists _, _; split; [reflexivity | reflexivity].
-    - destruct (IHf ltac:(assumption) ltac:(assumption) ltac:(assumption) (N.max ctx (bs_call F), PUnspec, unb)) as [t [ts [E Hh]]].
+    - destruct (IHf ltac:(assumption) ltac:(assumption) ltac:(assumption) (N.max (no_alias F f ctx) (bs_call F), PUnspec, unb) (no_alias_ok f ctx PUnspec unb)) as [t [ts [E Hh]]].
       rewrite E. cbn [app]. eexists _, _; split; [reflexivity | exact Hh].
     - eexists _, _; split; [reflexivity | exact I].
   Qed.
@@ -271,16 +388,17 @@ Section RoundTrip.
 
   (* what a parent uses about a child printed by `fmt` (with or without parentheses) *)
   Definition good (e : expr) : Prop :=
-    forall st,
-    (needs F st e = true \/ is_term e = true -> forall rest, exists g, q_term (par T g) (fmt F e st ++ rest) = Some (e, rest)) /\
-    (needs F st e = true \/ is_term e = true \/ is_un e = true ->
+    forall st, okst e st ->
+    (wrapped st e = true \/ is_term e = true -> forall rest, exists g, q_term (par T g) (fmt F e st ++ rest) = Some (e, rest)) /\
+    (wrapped st e = true \/ is_term e = true \/ is_un e = true ->
        forall rest, exists g, p_unary T (par T g) (fmt F e st ++ rest) = Some (e, rest)) /\
     (forall minp rest k f,
-        (needs F st e = false -> is_call e = false) ->
-        (needs F st e = false -> forall o l r, e = EBin o l r -> minp <= lbp T o) ->
+        (wrapped st e = false -> is_call e = false) ->
+        (wrapped st e = false -> forall o l r, e = EBin o l r -> minp <= lbp T o) ->
         stop (edge st e) rest -> q_loop (par T f) minp e rest = Some k ->
         exists g, q_bin (par T g) minp (fmt F e st ++ rest) = Some k) /\
-    (forall rest, closes rest -> exists g, q_call (par T g) (fmt F e st ++ rest) = Some (e, rest)).
+    (* func_call returns `name.kind` when there are no arguments: the alias of a parenthesised `(x = a)` is lost *)
+    (is_alias e = false -> forall rest, closes rest -> exists g, q_call (par T g) (fmt F e st ++ rest) = Some (e, rest)).
 
   Definition not_rng_head (ts : list tok) : Prop := match ts with TRg _ _ :: _ => False | _ => True end.
 
@@ -303,11 +421,29 @@ Section RoundTrip.
     apply (up_loop f (g + f)); [lia | exact H2].
   Qed.
 
-  Lemma call_of_bin g ts e rest : closes rest ->
+  Lemma call_of_bin g ts e rest : closes rest -> is_alias e = false ->
     q_bin (par T g) 0 ts = Some (e, rest) -> q_call (par T (S (S g))) ts = Some (e, rest).
   Proof.
-    intros Hc H. cbn [par step q_call]. change (step T (par T g)) with (par T (S g)).
-    rewrite (up_bin g (S g) _ _ _ ltac:(lia) H). rewrite (args_closes g rest Hc). reflexivity.
+    intros Hc Ha H. cbn [par step q_call]. change (step T (par T g)) with (par T (S g)).
+    rewrite (up_bin g (S g) _ _ _ ltac:(lia) H). rewrite (args_closes g rest Hc).
+    destruct e; try discriminate Ha; reflexivity.
+  Qed.
+
+  (* a term that starts with `(`, seen from the unary / range / binary levels *)
+  Lemma of_term ts e :
+    (forall rest, exists g, q_term (par T g) ((TOpen GPipe :: ts) ++ rest) = Some (e, rest)) ->
+    (forall rest, exists g, p_unary T (par T g) ((TOpen GPipe :: ts) ++ rest) = Some (e, rest)) /\
+    (forall rest, norange rest -> exists g, p_range T (par T g) ((TOpen GPipe :: ts) ++ rest) = Some (e, rest)) /\
+    (forall minp rest k f, norange rest -> q_loop (par T f) minp e rest = Some k ->
+       exists g, q_bin (par T g) minp ((TOpen GPipe :: ts) ++ rest) = Some k).
+  Proof.
+    intro W.
+    assert (U : forall rest, exists g, p_unary T (par T g) ((TOpen GPipe :: ts) ++ rest) = Some (e, rest)).
+    { intro rest. destruct (W rest) as [g Hg]. exists g. apply unary_of_term; [exact Hg | exact I]. }
+    assert (R : forall rest, norange rest -> exists g, p_range T (par T g) ((TOpen GPipe :: ts) ++ rest) = Some (e, rest)).
+    { intros rest Hn. destruct (U rest) as [g Hg]. exists g. apply range_of_unary; [exact Hg | exact I | exact Hn]. }
+    repeat split; [exact U | exact R |].
+    intros minp rest k f Hn Hloop. destruct (R rest Hn) as [g Hg]. eexists. eapply bin_of_range; eassumption.
   Qed.
 
   Lemma fmt_plain e st : plain e = true ->
@@ -356,7 +492,7 @@ Section RoundTrip.
       + intros; lia.
       + apply closes_stop; exact Hcl.
       + apply loop_closes; exact Hcl.
-      + eexists. apply call_of_bin; eassumption.
+      + eexists. apply call_of_bin; [exact Hcl | apply plain_not_alias; exact Hp | eassumption].
   Qed.
 
   (* ---------------- a node in parentheses is a term *)
@@ -366,7 +502,7 @@ Section RoundTrip.
   Proof.
     intros Hp Hw Ho G rest.
     destruct (kb_call e 0%N pos false Hp G ltac:(apply N.max_r; lia) (TClose GPipe :: rest) I) as [g Hg].
-    destruct (fmt_head e Hp Hw Ho (0%N, pos, false)) as [t [ts [E Hh]]].
+    destruct (fmt_head e (plain_operand e Hp) Hw Ho (0%N, pos, false) (okst_plain e _ Hp)) as [t [ts [E Hh]]].
     rewrite (fmt_plain e _ Hp), (needs_reset e pos Hp Ho) in E. cbn [wrap inner_state] in E.
     rewrite E in *. cbn [app] in *. exists (S (S g)).
     cbn [par step q_term q_items]. change (step T (par T g)) with (par T (S g)).
@@ -378,26 +514,21 @@ Section RoundTrip.
 
   Lemma goodb_good e : plain e = true -> wf e = true -> ops_ok e = true -> goodb e -> good e.
   Proof.
-    intros Hp Hw Ho G [[ctx pos] unb].
-    rewrite (fmt_plain e _ Hp).
+    intros Hp Hw Ho G [[ctx pos] unb] _.
+    rewrite (wrapped_plain e _ Hp). rewrite (fmt_plain e _ Hp).
     destruct (needs F (ctx, pos, unb) e) eqn:EN; cbn [wrap inner_state].
     - (* in parentheses *)
       assert (W : forall rest, exists g,
                  q_term (par T g) ((TOpen GPipe :: kind_fmt F e (0%N, pos, false) ++ [TClose GPipe]) ++ rest) = Some (e, rest)).
       { intro rest. cbn [app]. rewrite <- app_assoc. cbn [app]. apply wrapped_term; assumption. }
-      assert (U : forall rest, exists g,
-                 p_unary T (par T g) ((TOpen GPipe :: kind_fmt F e (0%N, pos, false) ++ [TClose GPipe]) ++ rest) = Some (e, rest)).
-      { intro rest. destruct (W rest) as [g Hg]. exists g. apply unary_of_term; [exact Hg | exact I]. }
-      assert (R : forall rest, norange rest -> exists g,
-                 p_range T (par T g) ((TOpen GPipe :: kind_fmt F e (0%N, pos, false) ++ [TClose GPipe]) ++ rest) = Some (e, rest)).
-      { intros rest Hn. destruct (U rest) as [g Hg]. exists g. apply range_of_unary; [exact Hg | exact I | exact Hn]. }
+      destruct (of_term _ _ W) as [U [R B]].
       repeat split.
       + intros _. exact W.
       + intros _. exact U.
-      + intros minp rest k f _ _ Hs Hloop. destruct (R rest (proj1 Hs)) as [g Hg].
-        eexists. eapply bin_of_range; eassumption.
-      + intros rest Hcl. destruct (R rest (closes_norange rest Hcl)) as [g Hg].
-        eexists. apply call_of_bin; [exact Hcl|]. eapply bin_of_range; [exact Hg | apply (loop_closes 0); exact Hcl].
+      + intros minp rest k f _ _ Hs Hloop. exact (B minp rest k f (proj1 Hs) Hloop).
+      + intros _ rest Hcl. destruct (R rest (closes_norange rest Hcl)) as [g Hg].
+        eexists. apply call_of_bin; [exact Hcl | apply plain_not_alias; exact Hp |].
+        eapply bin_of_range; [exact Hg | apply (loop_closes 0); exact Hcl].
     - (* as is *)
       assert (Hc : N.max ctx (strength F e) = strength F e).
       { apply N.max_r. apply (ctx_le (ctx, pos, unb) e EN). }
@@ -410,7 +541,42 @@ Section RoundTrip.
       + intros minp rest k f Hnc Hm Hs Hloop.
         apply (kb_bin e ctx pos unb Hp G Hc (Hnc eq_refl) minp rest k f (Hm eq_refl)); [|exact Hloop].
         unfold edge in Hs. destruct e; try exact Hs. rewrite EN in Hs. exact Hs.
-      + intros rest Hcl. apply kb_call; assumption.
+      + intros _ rest Hcl. apply kb_call; assumption.
+  Qed.
+
+  (* ---------------- an aliased expression above alias_ctx: `(n = x)` is a term *)
+  Lemma alias_good n x : plain x = true -> good x -> good (EAlias n x).
+  Proof.
+    intros Hp Gx [[ctx pos] unb] Hok. specialize (Hok eq_refl). cbn [fst] in Hok.
+    rewrite fmt_alias_hi by exact Hok.
+    assert (W : forall rest, exists g,
+               q_term (par T g) ((TOpen GPipe :: TAlias n :: fmt F x (0%N, pos, false) ++ [TClose GPipe]) ++ rest) = Some (EAlias n x, rest)).
+    { intro rest. destruct (Gx (0%N, pos, false) (okst_plain x _ Hp)) as [_ [_ [_ Gc]]].
+      destruct (Gc (plain_not_alias x Hp) (TClose GPipe :: rest) I) as [g Hg].
+      exists (S (S g)). cbn [app]. rewrite <- app_assoc. cbn [app].
+      cbn [par step q_term q_items p_item p_nested]. fold (par T g). rewrite Hg. cbn [gkind_eqb andb]. reflexivity. }
+    destruct (of_term _ _ W) as [U [R B]].
+    repeat split.
+    - intros _. exact W.
+    - intros _. exact U.
+    - intros minp rest k f _ _ Hs Hloop. exact (B minp rest k f (proj1 Hs) Hloop).
+    - intro Ha. discriminate Ha.
+  Qed.
+
+  (* explicit parentheses around a plain expression written at any state *)
+  Lemma paren_term x st : plain x = true -> wf x = true -> ops_ok x = true -> good x ->
+    forall rest, exists g, q_term (par T g) (TOpen GPipe :: fmt F x st ++ TClose GPipe :: rest) = Some (x, rest).
+  Proof.
+    intros Hp Hw Ho Gx rest.
+    destruct (Gx st (okst_plain x _ Hp)) as [_ [_ [_ Gc]]].
+    destruct (Gc (plain_not_alias x Hp) (TClose GPipe :: rest) I) as [g Hg].
+    destruct (fmt_head x (plain_operand x Hp) Hw Ho st (okst_plain x _ Hp)) as [t [ts [E Hh]]].
+    rewrite E in *. cbn [app] in *. exists (S (S g)).
+    cbn [par step q_term q_items]. change (step T (par T g)) with (par T (S g)).
+    destruct t as [a|s un|bl br|k|k| | | |n|n]; try contradiction;
+      cbn [p_item p_nested par step]; fold (par T g);
+      change (step T (par T g)) with (par T (S g)) in *;
+      (rewrite Hg; cbn [gkind_eqb]; reflexivity).
   Qed.
 
   (* ---------------- which children end up in parentheses *)
@@ -436,10 +602,11 @@ Section RoundTrip.
   Proof. cbn [ops_ok]. intro H. apply andb_true_iff in H as [H _]. apply andb_true_iff in H as [H _]. apply Nat.ltb_lt; exact H. Qed.
 
   (* operand of a unary operator: in parentheses unless it is a term *)
-  Lemma un_child x pos unb : plain x = true -> ops_ok x = true ->
-    needs F (bs_un F, pos, unb) x = true \/ is_term x = true.
+  Lemma un_child x pos unb : operand x = true -> ops_ok x = true ->
+    wrapped (bs_un F, pos, unb) x = true \/ is_term x = true.
   Proof.
-    intros Hp Ho. destruct x as [a|o l r|u y|l r|l|r| |f args|k es|n y|n y]; try discriminate Hp; cbn [is_term]; auto; left.
+    intros Hp Ho. unfold wrapped.
+    destruct x as [a|o l r|u y|l r|l|r| |f args|k es|n y|n y]; try discriminate Hp; cbn [is_term is_alias orb]; auto; left.
     - apply needs_lt. apply (H_bin_un C). apply (ops_bin _ _ _ Ho).
     - apply needs_eq_unspec; [reflexivity | apply N.le_refl].
     - apply needs_eq_unspec; [reflexivity | apply (H_rng_un C)].
@@ -450,10 +617,11 @@ Section RoundTrip.
   Qed.
 
   (* bound of a range (written at position Unspecified): in parentheses unless it is a term or a unary operator *)
-  Lemma rng_child c unb : plain c = true -> ops_ok c = true ->
-    needs F (bs_rng F, PUnspec, unb) c = true \/ is_term c = true \/ is_un c = true.
+  Lemma rng_child c unb : operand c = true -> ops_ok c = true ->
+    wrapped (bs_rng F, PUnspec, unb) c = true \/ is_term c = true \/ is_un c = true.
   Proof.
-    intros Hp Ho. destruct c as [a|o l r|u y|l r|l|r| |f args|k es|n y|n y]; try discriminate Hp; cbn [is_term is_un]; auto; left.
+    intros Hp Ho. unfold wrapped.
+    destruct c as [a|o l r|u y|l r|l|r| |f args|k es|n y|n y]; try discriminate Hp; cbn [is_term is_un is_alias orb]; auto; left.
     - rewrite needs_bin. unfold Fmt.unwrapped_at. rewrite negb_involutive.
       pose proof (H_bin_rng C o (ops_bin _ _ _ Ho)) as Hle.
       destruct (N.ltb_spec (bs o) (bs_rng F)) as [|Hge]; [reflexivity|].
@@ -465,16 +633,16 @@ Section RoundTrip.
     - apply needs_call. apply (H_call_rng C).
   Qed.
 
-  Lemma call_wrapped c ctx pos unb : (bs_call F <= ctx)%N -> needs F (ctx, pos, unb) c = false -> is_call c = false.
-  Proof. intros Hle EN. destruct c; try reflexivity. rewrite needs_call in EN; [discriminate | exact Hle]. Qed.
+  Lemma call_wrapped c ctx pos unb : (bs_call F <= ctx)%N -> wrapped (ctx, pos, unb) c = false -> is_call c = false.
+  Proof.
+    intros Hle EN. destruct c; try reflexivity. unfold wrapped in EN. cbn [is_alias orb] in EN.
+    rewrite needs_call in EN; [discriminate | exact Hle].
+  Qed.
 
   (* ---------------- list elements (tuple items, pipeline elements, arguments) *)
   Definition elem_good (a : expr) : Prop :=
     match a with EAlias _ x | ENamed _ x => good x | _ => good a end.
   Definition inner (a : expr) : expr := match a with EAlias _ x | ENamed _ x => x | _ => a end.
-
-  Lemma wf_inner a : wf a = true -> wf (inner a) = true /\ plain (inner a) = true \/ plain a = true.
-  Proof. destruct a; cbn [wf inner plain is_alias is_named negb andb]; auto; intro H; left; bsplit; auto. Qed.
 
   Lemma elem_plain a : plain a = true -> elem_good a -> good a.
   Proof. destruct a; cbn; auto; discriminate. Qed.
@@ -489,13 +657,15 @@ Section RoundTrip.
   Proof.
     intros Hw Ho Hn Hal G rest Hcl.
     destruct a as [a0|o l r|u x|l r|l|r| |f args|k es|n x|n x]; try discriminate Hn.
-    10: { (* alias *)
+    10: { (* alias, bare: nothing is below context strength 0 *)
       cbn [wf ops_ok elem_good] in *. bsplit.
-      destruct (G (0%N, pos, false)) as [_ [_ [_ Gc]]]. destruct (Gc rest Hcl) as [g Hg].
-      exists g. rewrite fmt_eq. cbn [app p_nested]. rewrite (Hal eq_refl). rewrite Hg. reflexivity. }
+      destruct (G (0%N, pos, false) (okst_plain x _ ltac:(assumption))) as [_ [_ [_ Gc]]].
+      destruct (Gc (plain_not_alias x ltac:(assumption)) rest Hcl) as [g Hg].
+      exists g. rewrite fmt_alias_lo by apply N.le_0_l. cbn [app p_nested]. rewrite (Hal eq_refl). rewrite Hg. reflexivity. }
     all: (lazymatch goal with |- context [fmt F ?e (0%N, _, false)] =>
-            destruct (fmt_head e eq_refl Hw Ho (0%N, pos, false)) as [t [ts [E Hh]]] end;
-          destruct (G (0%N, pos, false)) as [_ [_ [_ Gc]]]; destruct (Gc rest Hcl) as [g Hg];
+            destruct (fmt_head e eq_refl Hw Ho (0%N, pos, false) (okst_plain e _ eq_refl)) as [t [ts [E Hh]]];
+            destruct (G (0%N, pos, false) (okst_plain e _ eq_refl)) as [_ [_ [_ Gc]]] end;
+          destruct (Gc eq_refl rest Hcl) as [g Hg];
           exists g; rewrite E in *; cbn [app] in *;
           destruct t; try contradiction; cbn [p_nested]; exact Hg).
   Qed.
@@ -504,8 +674,10 @@ Section RoundTrip.
     exists t ts, fmt F a st = t :: ts /\ not_close t.
   Proof.
     intros Hw Ho. destruct (plain a) eqn:Hp.
-    - destruct (fmt_head a Hp Hw Ho st) as [t [ts [E Hh]]]. exists t, ts. split; [exact E|]. destruct t; try contradiction; exact I.
-    - destruct st as [[ctx pos] unb]. destruct a; try discriminate Hp; rewrite fmt_eq; eexists _, _; split; try reflexivity; exact I.
+    - destruct (fmt_head a (plain_operand a Hp) Hw Ho st (okst_plain a _ Hp)) as [t [ts [E Hh]]]. exists t, ts. split; [exact E|]. destruct t; try contradiction; exact I.
+    - destruct st as [[ctx pos] unb]. destruct a; try discriminate Hp; rewrite fmt_eq.
+      + destruct (alias_ctx F <? ctx)%N; eexists _, _; split; try reflexivity; exact I.
+      + eexists _, _; split; try reflexivity; exact I.
   Qed.
 
   Definition simple_kind (k : gkind) : bool := match k with GCase => false | _ => true end.
@@ -515,13 +687,21 @@ Section RoundTrip.
   Lemma sep_simple k i : simple_kind k = true -> is_sep k (sep_of k i) = true /\ closes (sep_of k i :: []).
   Proof. destruct k; cbn; intro H; try discriminate; split; auto. Qed.
 
+  Lemma simple_item_ctx k : simple_kind k = true -> item_ctx F k = 0%N.
+  Proof. destruct k; cbn; intro H; try discriminate; reflexivity. Qed.
+
+  Lemma fmt_items_cons2 k pos a b t i :
+    fmt_items F k pos (a :: b :: t) i = fmt F a (item_ctx F k, pos, false) ++ sep_of k i :: fmt_items F k pos (b :: t) (S i).
+  Proof. reflexivity. Qed.
+
   Lemma items_simple k pos rest : simple_kind k = true ->
     forall es i, Forall elem_good es -> forallb wf es = true -> forallb ops_ok es = true ->
       forallb (elem_ok_in k) es = true ->
       (k = GPipe -> es <> []) ->
       exists g, q_items (par T g) k (fmt_items F k pos es i ++ TClose k :: rest) = Some (es, rest).
   Proof.
-    intros Hk. induction es as [|a t IH]; intros i HG Hw Ho Hin Hne.
+    intros Hk. pose proof (simple_item_ctx k Hk) as Hic.
+    induction es as [|a t IH]; intros i HG Hw Ho Hin Hne.
     - exists 1. cbn [fmt_items app par step q_items]. destruct k; try discriminate Hk; try reflexivity. exfalso; apply Hne; reflexivity.
     - inversion HG as [|? ? Ga Gt]; subst. cbn [forallb existsb] in Hw, Ho, Hin. bsplit.
       assert (Hnamed : is_named a = false /\ (is_alias a = true -> (match k with GPipe | GTup => true | _ => false end) = true)).
@@ -535,7 +715,7 @@ Section RoundTrip.
       destruct t as [|b t'].
       + (* last element *)
         destruct (nested_elem a _ pos ltac:(assumption) ltac:(assumption) Hnn Hal Ga (TClose k :: rest) I) as [g Hg].
-        exists (S g). cbn [fmt_items]. rewrite E0 in *. cbn [app] in *. cbn [par step q_items].
+        exists (S g). cbn [fmt_items]. rewrite Hic. rewrite E0 in *. cbn [app] in *. cbn [par step q_items].
         destruct t0; try contradiction;
           (destruct k; try discriminate Hk; cbn [p_item]; rewrite Hg; cbn [gkind_eqb]; reflexivity).
       + destruct (sep_simple k i Hk) as [Hsep Hcs].
@@ -544,7 +724,7 @@ Section RoundTrip.
         destruct (nested_elem a _ pos ltac:(assumption) ltac:(assumption) Hnn Hal Ga _ Hcl) as [g1 Hg1].
         destruct (IH (S i) Gt ltac:(assumption) ltac:(assumption) ltac:(assumption) ltac:(discriminate)) as [g2 Hg2].
         exists (S (g1 + g2)).
-        change (fmt_items F k pos (a :: b :: t') i) with (fmt F a (0%N, pos, false) ++ sep_of k i :: fmt_items F k pos (b :: t') (S i)).
+        rewrite fmt_items_cons2, Hic.
         rewrite <- app_assoc. cbn [app]. rewrite E0 in *. cbn [app] in *. cbn [par step q_items].
         pose proof (p_nested_mono _ _ (par_le T g1 (g1 + g2) ltac:(lia)) _ _ _ Hg1) as Hg1'.
         pose proof (up_items g2 (g1 + g2) _ _ _ ltac:(lia) Hg2) as Hg2'.
@@ -565,30 +745,33 @@ Section RoundTrip.
       inversion HG as [|? ? Gc HG']; subst. inversion HG' as [|? ? Gv Gt]; subst.
       cbn [forallb existsb] in Hw, Ho, Hp. bsplit.
       pose proof (elem_plain c ltac:(assumption) Gc) as Gc'. pose proof (elem_plain v ltac:(assumption) Gv) as Gv'.
-      destruct (fmt_head c ltac:(assumption) ltac:(assumption) ltac:(assumption) (0%N, pos, false)) as [t0 [ts0 [E0 Hh0]]].
+      set (cc := case_ctx F) in *.
+      assert (Hpc : plain c = true) by assumption. assert (Hpv : plain v = true) by assumption.
+      destruct (fmt_head c (plain_operand c Hpc) ltac:(assumption) ltac:(assumption) (cc, pos, false) (okst_plain c _ Hpc)) as [t0 [ts0 [E0 Hh0]]].
       assert (Hsep : sep_of GCase i = TArrow) by (cbn [sep_of]; rewrite Hi; reflexivity).
       assert (Hsep2 : sep_of GCase (S i) = TComma).
       { cbn [sep_of]. rewrite Nat.even_succ. rewrite <- Nat.negb_even, Hi. reflexivity. }
       assert (Hi2 : Nat.even (S (S i)) = true) by (rewrite Nat.even_succ_succ; exact Hi).
       destruct t as [|c2 t2].
       + (* last pair *)
-        destruct (Gv' (0%N, pos, false)) as [_ [_ [_ Gvc]]]. destruct (Gvc (TClose GCase :: rest) I) as [g2 Hg2].
-        destruct (Gc' (0%N, pos, false)) as [_ [_ [_ Gcc]]].
-        destruct (Gcc (TArrow :: fmt F v (0%N, pos, false) ++ TClose GCase :: rest) I) as [g1 Hg1].
+        destruct (Gv' (cc, pos, false) (okst_plain v _ Hpv)) as [_ [_ [_ Gvc]]].
+        destruct (Gvc (plain_not_alias v Hpv) (TClose GCase :: rest) I) as [g2 Hg2].
+        destruct (Gc' (cc, pos, false) (okst_plain c _ Hpc)) as [_ [_ [_ Gcc]]].
+        destruct (Gcc (plain_not_alias c Hpc) (TArrow :: fmt F v (cc, pos, false) ++ TClose GCase :: rest) I) as [g1 Hg1].
         exists (S (g1 + g2)).
-        change (fmt_items F GCase pos [c; v] i) with (fmt F c (0%N, pos, false) ++ sep_of GCase i :: fmt F v (0%N, pos, false)).
+        change (fmt_items F GCase pos [c; v] i) with (fmt F c (cc, pos, false) ++ sep_of GCase i :: fmt F v (cc, pos, false)).
         rewrite Hsep. rewrite <- app_assoc. cbn [app]. rewrite E0 in *. cbn [app] in *.
         pose proof (up_call g1 (g1 + g2) _ _ ltac:(lia) Hg1) as Hg1'. pose proof (up_call g2 (g1 + g2) _ _ ltac:(lia) Hg2) as Hg2'.
         cbn [par step q_items]. destruct t0; try contradiction; cbn [p_item]; rewrite Hg1', Hg2'; reflexivity.
       + assert (Hlen' : length (c2 :: t2) = 2 * n) by (cbn [length] in *; lia).
         destruct (IH (c2 :: t2) (S (S i)) Hlen' Hi2 Gt ltac:(assumption) ltac:(assumption) ltac:(assumption)) as [g3 Hg3].
-        destruct (Gv' (0%N, pos, false)) as [_ [_ [_ Gvc]]].
-        destruct (Gvc (TComma :: fmt_items F GCase pos (c2 :: t2) (S (S i)) ++ TClose GCase :: rest) I) as [g2 Hg2].
-        destruct (Gc' (0%N, pos, false)) as [_ [_ [_ Gcc]]].
-        destruct (Gcc (TArrow :: fmt F v (0%N, pos, false) ++ TComma :: fmt_items F GCase pos (c2 :: t2) (S (S i)) ++ TClose GCase :: rest) I) as [g1 Hg1].
+        destruct (Gv' (cc, pos, false) (okst_plain v _ Hpv)) as [_ [_ [_ Gvc]]].
+        destruct (Gvc (plain_not_alias v Hpv) (TComma :: fmt_items F GCase pos (c2 :: t2) (S (S i)) ++ TClose GCase :: rest) I) as [g2 Hg2].
+        destruct (Gc' (cc, pos, false) (okst_plain c _ Hpc)) as [_ [_ [_ Gcc]]].
+        destruct (Gcc (plain_not_alias c Hpc) (TArrow :: fmt F v (cc, pos, false) ++ TComma :: fmt_items F GCase pos (c2 :: t2) (S (S i)) ++ TClose GCase :: rest) I) as [g1 Hg1].
         exists (S (g1 + g2 + g3)).
         change (fmt_items F GCase pos (c :: v :: c2 :: t2) i) with
-          (fmt F c (0%N, pos, false) ++ sep_of GCase i :: (fmt F v (0%N, pos, false) ++ sep_of GCase (S i) :: fmt_items F GCase pos (c2 :: t2) (S (S i)))).
+          (fmt F c (cc, pos, false) ++ sep_of GCase i :: (fmt F v (cc, pos, false) ++ sep_of GCase (S i) :: fmt_items F GCase pos (c2 :: t2) (S (S i)))).
         rewrite Hsep, Hsep2. repeat (rewrite <- app_assoc; cbn [app]). rewrite E0 in *. cbn [app] in *.
         pose proof (up_call g1 (g1 + g2 + g3) _ _ ltac:(lia) Hg1) as Hg1'. pose proof (up_call g2 (g1 + g2 + g3) _ _ ltac:(lia) Hg2) as Hg2'.
         pose proof (up_items g3 (g1 + g2 + g3) _ _ _ ltac:(lia) Hg3) as Hg3'.
@@ -605,11 +788,13 @@ Section RoundTrip.
     intros Hcl Hw Ho p. destruct t as [|b t']; [apply closes_stop; exact Hcl|].
     cbn [forallb] in Hw, Ho. bsplit. rewrite fmt_args_cons.
     destruct (plain b) eqn:Hp.
-    - destruct (fmt_head b Hp ltac:(assumption) ltac:(assumption) (bs_call F, pos, true)) as [t0 [ts0 [E Hh]]].
+    - destruct (fmt_head b (plain_operand b Hp) ltac:(assumption) ltac:(assumption) (bs_call F, pos, true) (okst_plain b _ Hp)) as [t0 [ts0 [E Hh]]].
       rewrite E. cbn [app]. cbn [snd] in Hh. destruct t0; try contradiction; cbn [head_ok] in Hh; split; try exact I.
       + destruct Hh as [_ Hh]. rewrite (Hh eq_refl). exact I.
       + subst. exact I.
-    - destruct b; try discriminate Hp; rewrite fmt_eq; cbn [app]; split; exact I.
+    - destruct b; try discriminate Hp.
+      + rewrite fmt_alias_lo by apply (H_alias_call C). cbn [app]; split; exact I.
+      + rewrite fmt_eq; cbn [app]; split; exact I.
   Qed.
 
   Lemma args_parse pos rest : closes rest ->
@@ -623,24 +808,34 @@ Section RoundTrip.
       pose proof (args_stop pos rest t Hcl ltac:(assumption) ltac:(assumption)) as Hstop.
       rewrite fmt_args_cons, <- app_assoc.
       set (rest1 := fmt_args F (bs_call F) pos t ++ rest) in *.
-      assert (Hx : forall x unb, good x ->
-                exists g, q_bin (par T g) 0 (fmt F x (bs_call F, pos, unb) ++ rest1) = Some (x, rest1)).
-      { intros x unb Gx. destruct (Gx (bs_call F, pos, unb)) as [_ [_ [Gb _]]].
+      assert (Hx : forall x c unb, good x -> (bs_call F <= c)%N -> okst x (c, pos, unb) ->
+                exists g, q_bin (par T g) 0 (fmt F x (c, pos, unb) ++ rest1) = Some (x, rest1)).
+      { intros x c unb Gx Hle Hok. destruct (Gx (c, pos, unb) Hok) as [_ [_ [Gb _]]].
         apply (Gb 0 rest1 (x, rest1) 1).
-        - apply call_wrapped. apply N.le_refl.
+        - apply call_wrapped. exact Hle.
         - intros; lia.
         - apply Hstop.
         - apply loop_stop. apply Hstop. }
       destruct a as [a0|o l r|u x|l r|l|r| |f args|k es|n x|n x].
-      10: { cbn [wf ops_ok elem_good] in *. bsplit. destruct (Hx x false Ga) as [g1 Hg1].
-            exists (S (g1 + g2)). rewrite fmt_eq. cbn [app par step q_args].
-            rewrite (up_bin g1 (g1 + g2) _ _ _ ltac:(lia) Hg1), (up_args g2 (g1 + g2) _ _ ltac:(lia) Hg2). reflexivity. }
-      10: { cbn [wf ops_ok elem_good] in *. bsplit. destruct (Hx x true Ga) as [g1 Hg1].
+      10: { (* positional argument with an alias: bare at the strength of a call *)
+            cbn [wf ops_ok elem_good] in *. bsplit.
+            assert (Hpx : plain x = true) by assumption.
+            destruct (Hx x (bs_call F) false Ga (N.le_refl _) (okst_plain x _ Hpx)) as [g1 Hg1].
+            exists (S (g1 + g2)). rewrite fmt_alias_lo by apply (H_alias_call C). cbn [app par step q_args].
+            rewrite (up_bin g1 (g1 + g2) _ _ _ ltac:(lia) Hg1), (up_args g2 (g1 + g2) _ _ ltac:(lia) Hg2).
+            destruct x; try discriminate Hpx; reflexivity. }
+      10: { (* named argument: its value is written at a context that parenthesises an alias *)
+            cbn [wf ops_ok elem_good] in *. bsplit.
+            assert (Hcx : no_alias F x (bs_call F) = N.max (no_alias F x (bs_call F)) (bs_call F)).
+            { unfold no_alias. destruct (is_alias_e x); lia. }
+            destruct (Hx x (no_alias F x (bs_call F)) true Ga) as [g1 Hg1].
+            { unfold no_alias. destruct (is_alias_e x); lia. }
+            { rewrite Hcx. apply no_alias_ok. }
             exists (S (g1 + g2)). rewrite fmt_eq. cbn [app par step q_args].
             rewrite (up_bin g1 (g1 + g2) _ _ _ ltac:(lia) Hg1), (up_args g2 (g1 + g2) _ _ ltac:(lia) Hg2). reflexivity. }
       all: (lazymatch goal with |- context [fmt F ?e (bs_call F, _, true)] =>
-              destruct (Hx e true Ga) as [g1 Hg1];
-              destruct (fmt_head e eq_refl ltac:(assumption) ltac:(assumption) (bs_call F, pos, true)) as [t0 [ts0 [E Hh]]] end;
+              destruct (Hx e (bs_call F) true Ga (N.le_refl _) (okst_plain e _ eq_refl)) as [g1 Hg1];
+              destruct (fmt_head e eq_refl ltac:(assumption) ltac:(assumption) (bs_call F, pos, true) (okst_plain e _ eq_refl)) as [t0 [ts0 [E Hh]]] end;
             exists (S (g1 + g2)); rewrite E in *; cbn [app] in *; cbn [par step q_args]; cbn [snd] in Hh;
             pose proof (up_bin g1 (g1 + g2) _ _ _ ltac:(lia) Hg1) as Hg1'; pose proof (up_args g2 (g1 + g2) _ _ ltac:(lia) Hg2) as Hg2';
             destruct t0; try contradiction; cbn [starts_arg head_ok] in *;
@@ -661,10 +856,12 @@ Section RoundTrip.
   Qed.
 
   (* ---------------- every well-formed tree is good *)
-  Definition Pgood (e : expr) : Prop := wf e = true -> ops_ok e = true -> elem_good e.
+  Definition Pgood (e : expr) : Prop := wf e = true -> ops_ok e = true -> elem_good e /\ (is_named e = false -> good e).
 
-  Lemma pgood_plain c : Pgood c -> plain c = true -> wf c = true -> ops_ok c = true -> good c.
-  Proof. intros P Hp Hw Ho. apply elem_plain; [exact Hp | apply P; assumption]. Qed.
+  Lemma pgood_operand c : Pgood c -> operand c = true -> wf c = true -> ops_ok c = true -> good c.
+  Proof.
+    intros P Hp Hw Ho. destruct (P Hw Ho) as [_ G]. apply G. unfold operand in Hp. apply negb_true_iff in Hp. exact Hp.
+  Qed.
 
   Lemma forall_elem es : Forall Pgood es -> forallb wf es = true -> forallb ops_ok es = true -> Forall elem_good es.
   Proof.
@@ -683,31 +880,76 @@ Section RoundTrip.
     apply (H_edge C); [apply (ops_bin _ _ _ Hoc) | exact Ho' |]. specialize (Hr o2 l2 r2 eq_refl eq_refl). lia.
   Qed.
 
+  Lemma atom_good a : good (EAtom a).
+  Proof.
+    apply goodb_good; try reflexivity. intros ctx pos unb _. repeat split; try (intro; discriminate).
+    intros _ rest. exists 1. reflexivity.
+  Qed.
+
+  (* the start of a range parses back, at the unary level, to the start expression; it does not begin with `..` *)
+  Lemma start_unary l ctx unb : operand l = true -> wf l = true -> ops_ok l = true -> good l ->
+    N.max ctx (bs_rng F) = bs_rng F ->
+    (forall rest, exists g, p_unary T (par T g) (range_start F l ctx unb ++ rest) = Some (l, rest)) /\
+    (exists t ts, range_start F l ctx unb = t :: ts /\ match t with TRg _ _ => False | _ => True end).
+  Proof.
+    intros Hp Hw Ho Gl Hc.
+    assert (Hok : okst l (bs_rng F, PUnspec, unb)) by (apply okst_lt; apply (H_alias_rng C)).
+    destruct (range_start_cases l ctx unb) as [E|[[s [-> E]]|[u [p [-> [EN E]]]]]]; rewrite E; rewrite ?Hc.
+    - (* the expression as it is *)
+      split.
+      + destruct (Gl (bs_rng F, PUnspec, unb) Hok) as [_ [GlU _]]. exact (GlU (rng_child l unb Hp Ho)).
+      + destruct (fmt_head l Hp Hw Ho (bs_rng F, PUnspec, unb) Hok) as [t0 [ts0 [E0 Hh]]].
+        exists t0, ts0. split; [exact E0|].
+        destruct (rng_child l unb Hp Ho) as [Hn|[Hn|Hn]].
+        * destruct (operand_cases l Hp) as [Hpl|[n [x ->]]].
+          -- rewrite (wrapped_plain l _ Hpl) in Hn. rewrite (fmt_plain l _ Hpl), Hn in E0. cbn [wrap] in E0. injection E0 as <- _. exact I.
+          -- rewrite fmt_alias_hi in E0 by apply (H_alias_rng C). injection E0 as <- _. exact I.
+        * destruct l; try discriminate Hn; rewrite fmt_eq in E0; destruct (needs F _ _) in E0; cbn [wrap kind_fmt inner_state] in E0; injection E0 as <- _; exact I.
+        * destruct l; try discriminate Hn; rewrite fmt_eq in E0; destruct (needs F _ _) in E0; cbn [wrap kind_fmt inner_state] in E0; injection E0 as <- _; exact I.
+    - (* ($p) *)
+      split; [|eexists _, _; split; [reflexivity | exact I]].
+      intro rest. destruct (paren_term (EAtom (AParam s)) (bs_rng F, PUnspec, unb) eq_refl eq_refl eq_refl (atom_good _) rest) as [g Hg].
+      exists g. cbn [app]. rewrite <- app_assoc. cbn [app]. apply unary_of_term; [exact Hg | exact I].
+    - (* op($p) *)
+      split; [|eexists _, _; split; [reflexivity | exact I]].
+      intro rest. cbn [ops_ok] in Ho. apply andb_true_iff in Ho as [Hu _]. apply Nat.ltb_lt in Hu.
+      destruct (paren_term (EAtom (AParam p)) (N.max ctx (bs_un F), PUnspec, unb) eq_refl eq_refl eq_refl (atom_good _) rest) as [g Hg].
+      exists g. cbn [app]. rewrite <- app_assoc. cbn [app p_unary]. rewrite (H_un_sym C u Hu). rewrite Hg. reflexivity.
+  Qed.
+
   Theorem all_good e : Pgood e.
   Proof.
     induction e as [a|o l r IHl IHr|u x IHx|l r IHl IHr|l IHl|r IHr| |f args IHf IHargs|k es IHes|n x IHx|n x IHx] using expr_ind2;
       intros Hw Ho; cbn [elem_good].
+    10: { (* alias *)
+      cbn [wf ops_ok] in Hw, Ho. bsplit.
+      pose proof (pgood_operand x IHx (plain_operand x ltac:(assumption)) ltac:(assumption) ltac:(assumption)) as Gx.
+      split; [exact Gx | intros _; apply alias_good; assumption]. }
+    10: { (* named *)
+      cbn [wf ops_ok] in Hw, Ho. bsplit.
+      split; [apply pgood_operand; assumption | intro Hnm; discriminate Hnm]. }
+    all: match goal with |- good ?e /\ _ => cut (good e); [intro G0; split; [exact G0 | intros _; exact G0] |] end.
     - (* atom *)
-      apply goodb_good; try reflexivity. intros ctx pos unb _. repeat split; try (intro; discriminate).
-      intros _ rest. exists 1. reflexivity.
+      apply atom_good.
     - (* binary *)
       pose proof Hw as Hw0. pose proof Ho as Ho0. cbn [wf ops_ok] in Hw, Ho. bsplit.
       pose proof (ops_bin _ _ _ Ho0) as Hob.
-      pose proof (pgood_plain l IHl ltac:(assumption) ltac:(assumption) ltac:(assumption)) as Gl.
-      pose proof (pgood_plain r IHr ltac:(assumption) ltac:(assumption) ltac:(assumption)) as Gr.
+      pose proof (pgood_operand l IHl ltac:(assumption) ltac:(assumption) ltac:(assumption)) as Gl.
+      pose proof (pgood_operand r IHr ltac:(assumption) ltac:(assumption) ltac:(assumption)) as Gr.
       apply goodb_good; try assumption; try reflexivity.
       intros ctx pos unb Hc. cbn [strength] in Hc.
       repeat split; try (intro; discriminate).
       intros _ minp rest k f Hm Hs Hloop. cbn [kind_fmt]. rewrite Hc.
       specialize (Hm o l r eq_refl). cbn [kedge] in Hs.
+      pose proof (H_alias_bin C o Hob) as Hab.
       (* A: the right operand *)
-      destruct (Gr (bs o, PRight, unb)) as [_ [_ [GrB _]]].
+      destruct (Gr (bs o, PRight, unb) ltac:(apply okst_lt; exact Hab)) as [_ [_ [GrB _]]].
       assert (HrR : forall o2 l2 r2, r = EBin o2 l2 r2 -> needs F (bs o, PRight, unb) r = false -> rbp T o <= lbp T o2).
       { intros o2 l2 r2 -> EN. rewrite needs_bin in EN. apply negb_false_iff in EN.
         apply (H_right C); [exact Hob | apply (ops_bin o2 l2 r2); assumption | exact EN]. }
       destruct (GrB (rbp T o) rest (r, rest) 1) as [g1 HA].
       { apply call_wrapped. apply (H_call_bin C); exact Hob. }
-      { intros EN o2 l2 r2 E. exact (HrR o2 l2 r2 E EN). }
+      { intros EN o2 l2 r2 E. apply (HrR o2 l2 r2 E). subst r. exact EN. }
       { apply (stop_edge_child o); assumption. }
       { apply loop_stop; exact Hs. }
       (* B: the loop resumed at the left operand consumes `o r` *)
@@ -715,11 +957,12 @@ Section RoundTrip.
       { cbn [par step q_loop]. rewrite (H_bin_sym C o Hob). destruct (Nat.leb_spec minp (lbp T o)); [|lia].
         rewrite (up_bin g1 (g1 + f) _ _ _ ltac:(lia) HA). apply (up_loop f (g1 + f)); [lia | exact Hloop]. }
       (* C: the left operand *)
-      destruct (Gl (bs o, PLeft, unb)) as [_ [_ [GlB _]]].
+      destruct (Gl (bs o, PLeft, unb) ltac:(apply okst_lt; exact Hab)) as [_ [_ [GlB _]]].
       rewrite <- app_assoc. cbn [app].
       apply (GlB minp _ k (S (g1 + f))); [ | | | exact HB].
       + apply call_wrapped. apply (H_call_bin C); exact Hob.
-      + intros EN o2 l2 r2 ->. rewrite needs_bin in EN. apply negb_false_iff in EN.
+      + intros EN o2 l2 r2 ->. change (needs F (bs o, PLeft, unb) (EBin o2 l2 r2) = false) in EN.
+        rewrite needs_bin in EN. apply negb_false_iff in EN.
         pose proof (H_left C o o2 Hob (ops_bin o2 l2 r2 ltac:(assumption)) EN).
         pose proof (H_adj C o2 (ops_bin o2 l2 r2 ltac:(assumption))). lia.
       + split; [exact I|]. rewrite (H_bin_sym C o Hob). unfold edge.
@@ -730,62 +973,50 @@ Section RoundTrip.
     - (* unary *)
       pose proof Hw as Hw0. pose proof Ho as Ho0. cbn [wf ops_ok] in Hw, Ho. bsplit.
       match goal with H : (u <? nu) = true |- _ => apply Nat.ltb_lt in H; rename H into Hu end.
-      pose proof (pgood_plain x IHx ltac:(assumption) ltac:(assumption) ltac:(assumption)) as Gx.
+      pose proof (pgood_operand x IHx ltac:(assumption) ltac:(assumption) ltac:(assumption)) as Gx.
       apply goodb_good; try assumption; try reflexivity.
       intros ctx pos unb Hc. cbn [strength] in Hc.
       repeat split; try (intro; discriminate).
       intros _ rest. cbn [kind_fmt]. rewrite Hc.
-      destruct (Gx (bs_un F, PUnspec, unb)) as [Gt _].
+      destruct (Gx (bs_un F, PUnspec, unb) ltac:(apply okst_lt; apply (H_alias_un C))) as [Gt _].
       destruct (Gt (un_child x PUnspec unb ltac:(assumption) ltac:(assumption)) rest) as [g Hg].
       exists g. cbn [app p_unary]. rewrite (H_un_sym C u Hu). rewrite Hg. reflexivity.
     - (* range l..r *)
       pose proof Hw as Hw0. pose proof Ho as Ho0. cbn [wf ops_ok] in Hw, Ho. bsplit.
-      pose proof (pgood_plain l IHl ltac:(assumption) ltac:(assumption) ltac:(assumption)) as Gl.
-      pose proof (pgood_plain r IHr ltac:(assumption) ltac:(assumption) ltac:(assumption)) as Gr.
+      pose proof (pgood_operand l IHl ltac:(assumption) ltac:(assumption) ltac:(assumption)) as Gl.
+      pose proof (pgood_operand r IHr ltac:(assumption) ltac:(assumption) ltac:(assumption)) as Gr.
       apply goodb_good; try assumption; try reflexivity.
       intros ctx pos unb Hc. cbn [strength] in Hc.
       repeat split; try (intro; discriminate).
       intros _ rest. cbn [kind_fmt]. rewrite Hc.
-      destruct (Gr (bs_rng F, PUnspec, unb)) as [_ [GrU _]].
+      destruct (Gr (bs_rng F, PUnspec, unb) ltac:(apply okst_lt; apply (H_alias_rng C))) as [_ [GrU _]].
       destruct (GrU (rng_child r unb ltac:(assumption) ltac:(assumption)) rest) as [g2 Hg2].
-      destruct (Gl (bs_rng F, PUnspec, unb)) as [_ [GlU _]].
-      destruct (GlU (rng_child l unb ltac:(assumption) ltac:(assumption)) (TRg true true :: fmt F r (bs_rng F, PUnspec, unb) ++ rest)) as [g1 Hg1].
+      destruct (start_unary l ctx unb ltac:(assumption) ltac:(assumption) ltac:(assumption) Gl Hc) as [GlU [t0 [ts0 [E Hnr]]]].
+      destruct (GlU (TRg true true :: fmt F r (bs_rng F, PUnspec, unb) ++ rest)) as [g1 Hg1].
       exists (g1 + g2). rewrite <- app_assoc. cbn [app].
       pose proof (up_unary g1 (g1 + g2) _ _ ltac:(lia) Hg1) as Hg1'. pose proof (up_unary g2 (g1 + g2) _ _ ltac:(lia) Hg2) as Hg2'.
-      destruct (fmt_head l ltac:(assumption) ltac:(assumption) ltac:(assumption) (bs_rng F, PUnspec, unb)) as [t0 [ts0 [E Hh]]].
-      assert (Hnr : match t0 with TRg _ _ => False | _ => True end).
-      { destruct (rng_child l unb ltac:(assumption) ltac:(assumption)) as [Hn|[Hn|Hn]].
-        - rewrite (fmt_plain l _ ltac:(assumption)), Hn in E. cbn [wrap] in E. injection E as <- _. exact I.
-        - destruct l; try discriminate Hn; rewrite fmt_eq in E; destruct (needs F _ _) in E; cbn [wrap kind_fmt inner_state] in E; injection E as <- _; exact I.
-        - destruct l; try discriminate Hn; rewrite fmt_eq in E; destruct (needs F _ _) in E; cbn [wrap kind_fmt inner_state] in E; injection E as <- _; exact I. }
       rewrite E in *. cbn [app] in *. unfold p_range.
       destruct t0; try contradiction; rewrite Hg1'; rewrite Hg2'; reflexivity.
     - (* range l.. *)
       pose proof Hw as Hw0. pose proof Ho as Ho0. cbn [wf ops_ok] in Hw, Ho. bsplit.
-      pose proof (pgood_plain l IHl ltac:(assumption) ltac:(assumption) ltac:(assumption)) as Gl.
+      pose proof (pgood_operand l IHl ltac:(assumption) ltac:(assumption) ltac:(assumption)) as Gl.
       apply goodb_good; try assumption; try reflexivity.
       intros ctx pos unb Hc. cbn [strength] in Hc.
       repeat split; try (intro; discriminate).
-      intros _ rest. cbn [kind_fmt]. rewrite Hc.
-      destruct (Gl (bs_rng F, PUnspec, unb)) as [_ [GlU _]].
-      destruct (GlU (rng_child l unb ltac:(assumption) ltac:(assumption)) (TRg true false :: rest)) as [g1 Hg1].
+      intros _ rest. cbn [kind_fmt].
+      destruct (start_unary l ctx unb ltac:(assumption) ltac:(assumption) ltac:(assumption) Gl Hc) as [GlU [t0 [ts0 [E Hnr]]]].
+      destruct (GlU (TRg true false :: rest)) as [g1 Hg1].
       exists g1. rewrite <- app_assoc. cbn [app].
-      destruct (fmt_head l ltac:(assumption) ltac:(assumption) ltac:(assumption) (bs_rng F, PUnspec, unb)) as [t0 [ts0 [E Hh]]].
-      assert (Hnr : match t0 with TRg _ _ => False | _ => True end).
-      { destruct (rng_child l unb ltac:(assumption) ltac:(assumption)) as [Hn|[Hn|Hn]].
-        - rewrite (fmt_plain l _ ltac:(assumption)), Hn in E. cbn [wrap] in E. injection E as <- _. exact I.
-        - destruct l; try discriminate Hn; rewrite fmt_eq in E; destruct (needs F _ _) in E; cbn [wrap kind_fmt inner_state] in E; injection E as <- _; exact I.
-        - destruct l; try discriminate Hn; rewrite fmt_eq in E; destruct (needs F _ _) in E; cbn [wrap kind_fmt inner_state] in E; injection E as <- _; exact I. }
       rewrite E in *. cbn [app] in *. unfold p_range.
       destruct t0; try contradiction; rewrite Hg1; reflexivity.
     - (* range ..r *)
       pose proof Hw as Hw0. pose proof Ho as Ho0. cbn [wf ops_ok] in Hw, Ho. bsplit.
-      pose proof (pgood_plain r IHr ltac:(assumption) ltac:(assumption) ltac:(assumption)) as Gr.
+      pose proof (pgood_operand r IHr ltac:(assumption) ltac:(assumption) ltac:(assumption)) as Gr.
       apply goodb_good; try assumption; try reflexivity.
       intros ctx pos unb Hc. cbn [strength] in Hc.
       repeat split; try (intro; discriminate).
       intros _ rest. cbn [kind_fmt]. rewrite Hc.
-      destruct (Gr (bs_rng F, PUnspec, unb)) as [_ [GrU _]].
+      destruct (Gr (bs_rng F, PUnspec, unb) ltac:(apply okst_lt; apply (H_alias_rng C))) as [_ [GrU _]].
       destruct (GrU (rng_child r unb ltac:(assumption) ltac:(assumption)) rest) as [g2 Hg2].
       exists g2. cbn [app p_range]. rewrite Hg2. reflexivity.
     - (* range .. *)
@@ -793,7 +1024,7 @@ Section RoundTrip.
       intros _ rest. exists 0. reflexivity.
     - (* call *)
       pose proof Hw as Hw0. pose proof Ho as Ho0. cbn [wf ops_ok] in Hw, Ho. rewrite go_forall in Hw, Ho. bsplit.
-      pose proof (pgood_plain f IHf ltac:(assumption) ltac:(assumption) ltac:(assumption)) as Gf.
+      pose proof (pgood_operand f IHf ltac:(assumption) ltac:(assumption) ltac:(assumption)) as Gf.
       pose proof (forall_elem args IHargs ltac:(assumption) ltac:(assumption)) as Gargs.
       apply goodb_good; try assumption; try reflexivity.
       intros ctx pos unb Hc. cbn [strength] in Hc.
@@ -801,9 +1032,10 @@ Section RoundTrip.
       intros _ rest Hcl. cbn [kind_fmt]. rewrite Hc. rewrite <- app_assoc.
       destruct (args_parse PUnspec rest Hcl args Gargs ltac:(assumption) ltac:(assumption)) as [g2 Hg2].
       pose proof (args_stop PUnspec rest args Hcl ltac:(assumption) ltac:(assumption)) as Hstop.
-      destruct (Gf (bs_call F, PUnspec, unb)) as [_ [_ [GfB _]]].
+      set (cf := N.max (no_alias F f ctx) (bs_call F)).
+      destruct (Gf (cf, PUnspec, unb) (no_alias_ok f ctx PUnspec unb)) as [_ [_ [GfB _]]].
       destruct (GfB 0 (fmt_args F (bs_call F) PUnspec args ++ rest) (f, fmt_args F (bs_call F) PUnspec args ++ rest) 1) as [g1 Hg1].
-      { apply call_wrapped. apply N.le_refl. }
+      { apply call_wrapped. unfold cf. lia. }
       { intros; lia. }
       { apply Hstop. }
       { apply loop_stop. apply Hstop. }
@@ -828,10 +1060,6 @@ Section RoundTrip.
       destruct HI as [g Hg]. exists (S g). cbn [par step q_term]. rewrite Hg.
       destruct k; try reflexivity. destruct es as [|a [|b t]]; try reflexivity.
       bsplit. match goal with H : (2 <=? length [a]) = true |- _ => discriminate H end.
-    - (* alias *)
-      cbn [wf ops_ok] in Hw, Ho. bsplit. apply pgood_plain; assumption.
-    - (* named *)
-      cbn [wf ops_ok] in Hw, Ho. bsplit. apply pgood_plain; assumption.
   Qed.
 
   (* ---------------- the theorem *)
@@ -839,7 +1067,7 @@ Section RoundTrip.
     exists f0, forall f, f0 <= f -> parse T f (fmt_top F e) = Some e.
   Proof.
     intros Hw Ho Hn.
-    destruct (nested_elem e true PUnspec Hw Ho Hn (fun _ => eq_refl) (all_good e Hw Ho) [] I) as [g Hg].
+    destruct (nested_elem e true PUnspec Hw Ho Hn (fun _ => eq_refl) (proj1 (all_good e Hw Ho)) [] I) as [g Hg].
     rewrite app_nil_r in Hg. exists g. intros f Hle. unfold parse, fmt_top, st0.
     rewrite (p_nested_mono _ _ (par_le T g f Hle) _ _ _ Hg). reflexivity.
   Qed.
@@ -862,6 +1090,11 @@ Qed.
 Lemma compat_sound F T nb nu : compat F T nb nu = true -> compat_facts F T nb nu.
 Proof.
   unfold compat. intro H.
+  apply andb_true_iff in H as [H Cac].
+  apply andb_true_iff in H as [H Can].
+  apply andb_true_iff in H as [H Car].
+  apply andb_true_iff in H as [H Cau].
+  apply andb_true_iff in H as [H Cab].
   apply andb_true_iff in H as [H Cpo].
   apply andb_true_iff in H as [H Cpc].
   apply andb_true_iff in H as [H Cpr].
@@ -902,4 +1135,9 @@ Proof.
   - intros o Ho. pose proof (forallb_seq _ _ Cbr o Ho) as X. apply N.leb_le in X. exact X.
   - intros o Ho. pose proof (forallb_seq _ _ Cpb o Ho) as X. apply N.ltb_lt in X. exact X.
   - repeat split; apply N.ltb_lt; assumption.
+  - intros o Ho. pose proof (forallb_seq _ _ Cab o Ho) as X. apply N.ltb_lt in X. exact X.
+  - apply N.ltb_lt; exact Cau.
+  - apply N.ltb_lt; exact Car.
+  - apply N.ltb_lt; exact Can.
+  - apply N.leb_le; exact Cac.
 Qed.
